@@ -537,3 +537,36 @@ mod tests {
         assert!(errors_consistent(&r.errors, &[px.clone(), px.clone()]).is_err());
     }
 }
+
+/// §6.3.2 CollectFields as a free function: (response key, field) pairs an object of runtime type
+/// `object` gets from `sel`, with @skip/@include evaluated against `vars`.
+pub fn collect_fields<'d>(s: &Schema, doc: &'d ExecDoc, vars: &VarValues, object: &str, sel: &'d [Selection], visited: &mut Vec<String>, out: &mut Vec<(String, &'d Field)>) {
+    for x in sel {
+        match x {
+            Selection::Field(f) => {
+                if !skipped(&f.directives, vars) {
+                    out.push((f.key().to_string(), f));
+                }
+            }
+            Selection::Spread(sp) => {
+                if skipped(&sp.directives, vars) || visited.contains(&sp.name.s) {
+                    continue;
+                }
+                visited.push(sp.name.s.clone());
+                if let Some(fr) = doc.frag(&sp.name.s) {
+                    if s.fragment_applies(object, &fr.cond.s) {
+                        collect_fields(s, doc, vars, object, &fr.sel, visited, out);
+                    }
+                }
+            }
+            Selection::Inline(i) => {
+                if skipped(&i.directives, vars) {
+                    continue;
+                }
+                if i.cond.as_ref().map(|c| s.fragment_applies(object, &c.s)).unwrap_or(true) {
+                    collect_fields(s, doc, vars, object, &i.sel, visited, out);
+                }
+            }
+        }
+    }
+}
